@@ -159,6 +159,42 @@ HasSharedAmbiguous == \E x, y, z \in 0..(N - 1) : \E t \in {1, 2, 4} :
 (* without collapsing, this is exactly when the dual walk's output fails to be manifold *)
 ManifoldIffNoSharedAmbiguous == ~(FinalNC /\ coll = {} /\ cidx = 1 /\ NoCollapseRun) \/ (Manifold(Mesh) <=> ~HasSharedAmbiguous)
 
+\* ------------------------------------------------------------------ orientation (canonical embedding)
+(* Every cell vertex is placed at the centre of its cell and every intersection vertex at the midpoint of its  *)
+(* lattice edge (coordinates doubled so that they stay integers).  A triangle is wound outward when the filled  *)
+(* endpoint of the lattice edge it crosses lies strictly behind its plane and the empty endpoint strictly in    *)
+(* front.  The vertex ids of the dual walk are <<cell path, offset>>: offsets below the cell's vertex count are *)
+(* cell vertices, the others are intersections, identified with their cell edge through the table.             *)
+RECURSIVE OrgOf(_, _)
+OrgOf(path, k) == IF k = 0 THEN <<0, 0, 0>>
+                  ELSE LET o == OrgOf(path, k - 1)  h == 2^(Depth - k)  c == path[k]
+                       IN <<o[1] + h * (IF Has(c, 1) THEN 1 ELSE 0), o[2] + h * (IF Has(c, 2) THEN 1 ELSE 0), o[3] + h * (IF Has(c, 4) THEN 1 ELSE 0)>>
+RECURSIVE CellAt(_, _, _)
+CellAt(cell, path, k) == IF k > Len(path) \/ cell.k # "B" THEN cell ELSE CellAt(cell.ch[path[k] + 1], path, k + 1)
+Corner2(path, c) == LET o == OrgOf(path, Len(path))  sz == 2^(Depth - Len(path))
+                    IN <<2 * (o[1] + sz * (IF Has(c, 1) THEN 1 ELSE 0)), 2 * (o[2] + sz * (IF Has(c, 2) THEN 1 ELSE 0)), 2 * (o[3] + sz * (IF Has(c, 4) THEN 1 ELSE 0))>>
+Centre2(path) == LET o == OrgOf(path, Len(path))  sz == 2^(Depth - Len(path)) IN <<2 * o[1] + sz, 2 * o[2] + sz, 2 * o[3] + sz>>
+EdgeOfOffset(mask, off) == CHOOSE e \in 0..11 : Table[mask][e] # <<>> /\ Table[mask][e][2] = off
+Pos2(root, v) == LET cell == CellAt(root, v[1], 1) IN
+   IF v[2] < NVerts[cell.mask] THEN Centre2(v[1])
+   ELSE LET co == ECorners(EdgeOfOffset(cell.mask, v[2]))  a == Corner2(v[1], co[1])  b == Corner2(v[1], co[2])
+        IN <<(a[1] + b[1]) \div 2, (a[2] + b[2]) \div 2, (a[3] + b[3]) \div 2>>
+Sub3(a, b) == <<a[1] - b[1], a[2] - b[2], a[3] - b[3]>>
+Cross(a, b) == <<a[2] * b[3] - a[3] * b[2], a[3] * b[1] - a[1] * b[3], a[1] * b[2] - a[2] * b[1]>>
+Dot(a, b) == a[1] * b[1] + a[2] * b[2] + a[3] * b[3]
+(* the third vertex of every triangle is the intersection vertex (see LeafEdge) *)
+TriOutward(root, t) ==
+  LET A == Pos2(root, t[1])  B == Pos2(root, t[2])  C == Pos2(root, t[3])
+      cell == CellAt(root, t[3][1], 1)
+      co == ECorners(EdgeOfOffset(cell.mask, t[3][2]))
+      p1 == Corner2(t[3][1], co[1])  p2 == Corner2(t[3][1], co[2])
+      filled == IF Bit(cell.mask, co[1]) THEN p1 ELSE p2
+      empty == IF Bit(cell.mask, co[1]) THEN p2 ELSE p1
+      n == Cross(Sub3(B, A), Sub3(C, A))
+  IN Dot(n, Sub3(filled, C)) < 0 /\ Dot(n, Sub3(empty, C)) > 0
+Outward == ~(Final \/ (FinalNC /\ coll = {} /\ cidx = 1 /\ NoCollapseRun))
+           \/ LET root == Build(<<>>, 0, <<0, 0, 0>>)  m == DcCell(root) IN \A i \in 1..Len(m) : TriOutward(root, m[i])
+
 MeshOK == ~(Final \/ (FinalNC /\ coll = {} /\ cidx = 1 /\ NoCollapseRun)) \/ LET m == Mesh IN Manifold(m) /\ (inside # {} => Len(m) > 0)
 \* statistics hook: some behaviour really collapses something
 RECURSIVE HasCoarseLeaf(_)
